@@ -22,13 +22,17 @@ var readLimit uint32 = defaultLimit
 // The result is always a valid MIME type, with application/octet-stream
 // returned when identification failed.
 func Detect(in []byte) *MIME {
+	verifAt("detect.enter", nil, nil, len(in), 0, false)
 	// Using atomic because readLimit can be written at the same time in other goroutine.
 	l := atomic.LoadUint32(&readLimit)
+	verifAt("detect.loaded", nil, nil, len(in), l, false)
 	if l > 0 && len(in) > int(l) {
 		in = in[:l]
 	}
 	mu.RLock()
 	defer mu.RUnlock()
+	defer verifAt("detect.done", nil, nil, len(in), l, false)
+	verifAt("detect.rlocked", nil, nil, len(in), l, false)
 	return root.match(in, l)
 }
 
@@ -46,8 +50,10 @@ func DetectReader(r io.Reader) (*MIME, error) {
 	var in []byte
 	var err error
 
+	verifAt("detect.enter", nil, nil, -1, 0, false)
 	// Using atomic because readLimit can be written at the same time in other goroutine.
 	l := atomic.LoadUint32(&readLimit)
+	verifAt("detect.loaded", nil, nil, -1, l, false)
 	if l == 0 {
 		in, err = io.ReadAll(r)
 		if err != nil {
@@ -67,6 +73,8 @@ func DetectReader(r io.Reader) (*MIME, error) {
 
 	mu.RLock()
 	defer mu.RUnlock()
+	defer verifAt("detect.done", nil, nil, len(in), l, false)
+	verifAt("detect.rlocked", nil, nil, len(in), l, false)
 	return root.match(in, l), nil
 }
 
@@ -107,8 +115,10 @@ func EqualsAny(s string, mimes ...string) bool {
 // During detection data is read in a single block of size limit, i.e. it is not buffered.
 // A limit of 0 means the whole input file will be used.
 func SetLimit(limit uint32) {
+	verifAt("setlimit.enter", nil, nil, 0, limit, false)
 	// Using atomic because readLimit can be read at the same time in other goroutine.
 	atomic.StoreUint32(&readLimit, limit)
+	verifAt("setlimit.stored", nil, nil, 0, limit, false)
 }
 
 // Extend adds detection for other file formats.
@@ -120,7 +130,10 @@ func Extend(detector func(raw []byte, limit uint32) bool, mime, extension string
 // Lookup finds a MIME object by its string representation.
 // The representation can be the main mime type, or any of its aliases.
 func Lookup(mime string) *MIME {
+	verifAt("lookup.enter", nil, nil, 0, 0, false)
 	mu.RLock()
 	defer mu.RUnlock()
+	defer verifAt("lookup.done", nil, nil, 0, 0, false)
+	verifAt("lookup.rlocked", nil, nil, 0, 0, false)
 	return root.lookup(mime)
 }
